@@ -85,9 +85,21 @@ class Cl:
         return (g + "." + self.label) if self.label else g
 
 
+CURRENT_MODE = ["T"]   # set by generate(); a clause tagged `T` / `P` is emitted in that panic mode only
+
+
+def _on(groups, active):
+    if groups is None or '*' in groups or CURRENT_MODE[0] in groups:
+        return True
+    gs = groups - {"T", "P"}
+    if not gs:
+        return False   # tagged for the other mode only
+    return active is None or bool(gs & active)
+
+
 def select_hints(lines, active):
     """hint sections: every line stands alone (tagged -> conditional, untagged -> always)"""
-    return [c for c in lines if c.groups is None or active is None or '*' in c.groups or (c.groups & active)]
+    return [c for c in lines if _on(c.groups, active)]
 
 
 def select(lines, active):
@@ -96,7 +108,7 @@ def select(lines, active):
     out, keep = [], True
     for c in lines:
         if c.groups is not None:
-            keep = active is None or '*' in c.groups or bool(c.groups & active)
+            keep = _on(c.groups, active)
         elif c.text.strip() in KEYWORDS:
             keep = True
         if keep:
@@ -522,6 +534,7 @@ def items_of(path):
 def generate(unit_dir, features=("parallel", "shred-derive"), mode="T", active=None):
     """returns (Emitted, extraction list, contracts).  mutate: optional callable(key, emitted_text)->text used by
     canaries (applied to the generated text of one function)."""
+    CURRENT_MODE[0] = mode
     sys.path.insert(0, unit_dir)
     import importlib.util
     spec = importlib.util.spec_from_file_location("unit_" + os.path.basename(unit_dir), os.path.join(unit_dir, "unit.py"))
@@ -561,7 +574,16 @@ def generate(unit_dir, features=("parallel", "shred-derive"), mode="T", active=N
             continue
         path = os.path.join(REPO, it_spec["file"])
         items = items_of(path)
-        item = find_item(items, it_spec["kind"], it_spec["name"], it_spec.get("owner"), cfg=set(features), nth=it_spec.get("nth", 0))
+        try:
+            item = find_item(items, it_spec["kind"], it_spec["name"], it_spec.get("owner"), cfg=set(features), nth=it_spec.get("nth", 0))
+        except Unsupported:
+            fb = it_spec.get("fallback")
+            if fb == "skip":
+                continue
+            if not fb:
+                raise
+            # the item does not exist in the source: the code that runs is the fallback (a trait's default method)
+            item = find_item(items_of(os.path.join(REPO, fb["file"])), fb["kind"], fb["name"], fb.get("owner"), cfg=set(features))
         owner = it_spec.get("emit_owner")
         if owner != cur_owner:
             if cur_owner is not None:
